@@ -26,6 +26,9 @@ type GenericBatchReader struct {
 }
 
 func NewBatchReader(conn net.PacketConn) BatchReader {
+	if br := verifBatchReader(conn); br != nil {
+		return br
+	}
 	if runtime.GOOS == "windows" {
 		return &GenericBatchReader{
 			conn: conn,
